@@ -21,7 +21,9 @@ NS = 8
 RULE = ("cases = histories of 12..300 statements over 8 root Vars driven by a python shadow simulation (typed and Var-to-Var assignment "
         "incl. own elements/properties and ancestors, auto-creating paths, <<, resize, removeAt, remove, clear, extend, clone, copy, drop, "
         "constructors) interleaved with queries (dump, ==, toString, conversions, is/has/contains/length, rc), plus literal sweeps over "
-        "every string length 0..20/31/32/100 and numeric boundary, the INT/NUMBER/FLOAT x STRING/SSTRING equality lattice, growth across "
+        "every string length 0..20/31/32/100 and numeric boundary, the INT/NUMBER/FLOAT x STRING/SSTRING equality lattice, FLOAT (C++ float) "
+        "against INT/NUMBER at and around k*2^24..2^31 (ints a float cannot hold vs the float they round to and its ulp neighbours, both "
+        "operand orders, as array elements, object values and contains() arguments; exact integer/Fraction oracle), growth across "
         "capacities 3,6,12,...,400 with and without a second handle, nesting depth up to 40; non-trivial = distinct case of >= 5 lines "
         "with a mutation and an observation")
 
@@ -93,6 +95,32 @@ def numeric(v):
 
 def to_f32(x):
     return struct.unpack("f", struct.pack("f", x))[0]
+
+
+def f32_round_int(i):
+    """the integer value of (float)i, round to nearest even on a 24-bit significand — integer arithmetic only"""
+    a = abs(i)
+    bl = a.bit_length()
+    if bl <= 24:
+        return i
+    k = bl - 24
+    q, r = a >> k, a & ((1 << k) - 1)
+    half = 1 << (k - 1)
+    if r > half or (r == half and (q & 1)):
+        q += 1
+    v = q << k
+    return -v if i < 0 else v
+
+
+def f32_neighbours(r):
+    """r (a float-representable integer with |r| >= 2^24) and the floats one ulp below and above it"""
+    a = abs(r)
+    if a < 2 ** 24:
+        return [r - 1, r, r + 1]
+    ulp = 1 << (a.bit_length() - 24)
+    lo = a - (ulp // 2 if a == 1 << (a.bit_length() - 1) else ulp)   # below a power of two the spacing halves
+    sg = -1 if r < 0 else 1
+    return [sg * lo, r, sg * (a + ulp)]
 
 
 TYPES = {"NONE": 0, "NUL": 1, "NUMBER": 2, "BOOL": 3, "INT": 4, "SSTRING": 5, "FLOAT": 6, "STRING": 8, "ARRAY": 9, "OBJ": 10}
@@ -678,6 +706,24 @@ def reference(line):
 KEYS = [b"a", b"b", b"c", b"key", b"k2", b"0", b"1", b"2", b"", b"longer-key-name", b"zz", b"A", b"x/y", b"\xc3\xa9"]
 INTS = [0, 1, -1, 2, 3, 7, 10, 100, 255, -128, 65536, 2 ** 31 - 1, -2 ** 31, 16777216, 16777217, 123456789]
 TYPE_NAMES = ["NONE", "NUL", "ARRAY", "OBJ", "STRING", "SSTRING"]
+# 32-bit ints that a float cannot hold, and their neighbours: 2^24 .. 2^31
+BIG_INTS = sorted(set(
+    [s_ * (2 ** k + d) for k in range(24, 31) for d in (-3, -2, -1, 0, 1, 2, 3, 5) for s_ in (1, -1)] +
+    [2 ** 31 - 1, 2 ** 31 - 2, 2 ** 31 - 64, 2 ** 31 - 65, 2 ** 31 - 129, -2 ** 31 + 1, -2 ** 31, -2 ** 31 + 63, -2 ** 31 + 65,
+     123456789, 123456792, 123456784, 16777217, 16777219, 33554433, 33554434, 33554435, 33554438, 99999999, 100000001,
+     2147483583, 2147483584, 2147483520]))
+BIG_INTS = [i for i in BIG_INTS if -2 ** 31 <= i < 2 ** 31]
+
+
+def rbigint(rng):
+    """a 32-bit int beyond float precision: a listed boundary value, or random with a random distance to its float rounding"""
+    if rng.random() < 0.5:
+        return rng.choice(BIG_INTS)
+    i = rng.randrange(2 ** 24, 2 ** 31) * rng.choice((1, -1))
+    if rng.random() < 0.5:
+        r = f32_round_int(i)
+        i = max(-2 ** 31, min(2 ** 31 - 1, r + rng.choice((-2, -1, 0, 1, 2))))
+    return i
 
 
 def rstring(rng):
@@ -700,6 +746,9 @@ def rstring(rng):
 
 def rdouble(rng):
     r = rng.random()
+    if r < 0.08:
+        i = rbigint(rng)                                    # a big int, or the float it rounds to, as a double
+        return (i if rng.random() < 0.5 else f32_round_int(i), 0)
     if r < 0.35:
         return (rng.choice(INTS), 0)                        # integer valued: equal to an INT of the same value
     if r < 0.6:
@@ -713,6 +762,9 @@ def rdouble(rng):
 
 def rfloat(rng):
     r = rng.random()
+    if r < 0.2:
+        # the float a big int rounds to, or a float one ulp away (always float-representable integers)
+        return (rng.choice(f32_neighbours(f32_round_int(rbigint(rng)))), 0)
     if r < 0.4:
         return (rng.choice([i for i in INTS if abs(i) <= 2 ** 24]), 0)
     if r < 0.8:
@@ -723,7 +775,8 @@ def rfloat(rng):
 def rlit(rng, kinds="iuldfbsc"):
     k = rng.choice(kinds)
     if k == "i":
-        return "i %d" % (rng.choice(INTS) if rng.random() < 0.7 else rng.randrange(-2 ** 31, 2 ** 31))
+        r = rng.random()
+        return "i %d" % (rng.choice(INTS) if r < 0.6 else rbigint(rng) if r < 0.8 else rng.randrange(-2 ** 31, 2 ** 31))
     if k == "u":
         return "u %d" % rng.choice([0, 1, 7, 2 ** 31 - 1, 2 ** 31, 2 ** 31 + 1, 2 ** 32 - 1, rng.randrange(0, 2 ** 32)])
     if k == "l":
@@ -1031,6 +1084,41 @@ def numeric_eq_cases(rng):
     return cases
 
 
+def float_int_cases(rng, tier):
+    """FLOAT (built through the C++ float constructor / operator=(float)) against INT and NUMBER around the 24-bit
+    significand: an int that a float cannot hold must differ from the float it rounds to, in both operand orders, as
+    array elements, as object values and through contains().  Exact arithmetic only (ints / Fraction)."""
+    ints = list(BIG_INTS) + [rbigint(rng) for _ in range(24 if tier == "quick" else 300)]
+    rng.shuffle(ints)
+    cases = []
+    for n in range(0, len(ints), 4):
+        c = ["reset"]
+        for i in ints[n:n + 4]:
+            r = f32_round_int(i)
+            for fv in f32_neighbours(r):
+                if abs(fv) > 2 ** 31:
+                    continue
+                c += ["ctor 0 f %d 0" % fv, "ctor 1 i %d" % i, "eq 0 1", "eq 1 0",
+                      "set 2/i0 f %d 0" % fv, "set 3/i0 i %d" % i, "eq 2 3", "contains 2 1", "contains 3 0",
+                      "set 4/k61 f %d 0" % fv, "set 5/k61 i %d" % i, "eq 4 5", "eq 5 4",
+                      "appl 6 f %d 0" % fv, "appl 6 i %d" % i, "contains 6 1", "contains 6 0", "contains 6 3/i0",
+                      # the same int as a double (not float-representable unless i == r), and the float's value as a double
+                      "ctor 7 d %d 0" % i, "eq 0 7", "eq 7 1", "contains 2 7", "ctor 7 d %d 0" % fv, "eq 0 7", "eq 7 1",
+                      "eqlit 0 i %d" % i, "eqlit 0 d %d 0" % i, "eqlit 1 d %d 0" % fv, "eqlit 1 f %d 0" % fv]
+            c += ["dumpall", "clear 6"]
+        cases.append(c)
+    # fractions: a double that is / is not the value of a float
+    fr = ["reset"]
+    for (fm, fe), (dm, de) in [((13421773, 27), (3602879701896397, 55)), ((13421773, 27), (13421773, 27)), ((1, 1), (1, 1)),
+                               ((11184811, 25), (6004799503160661, 54)), ((16777215, 24), (9007199254740991, 53)),
+                               ((8388609, 23), (4503599627370497, 52)), ((3, 2), (3, 2))]:
+        fr += ["ctor 0 f %d %d" % (fm, fe), "ctor 1 d %d %d" % (dm, de), "eq 0 1", "set 2/i0 f %d %d" % (fm, fe),
+               "set 3/i0 d %d %d" % (dm, de), "eq 2 3", "contains 2 1", "contains 3 0", "set 4/k61 f %d %d" % (fm, fe),
+               "set 5/k61 d %d %d" % (dm, de), "eq 4 5", "eqlit 0 d %d %d" % (dm, de), "eqlit 1 f %d %d" % (fm, fe)]
+    cases.append(fr)
+    return cases
+
+
 def growth_cases(rng, tier):
     """appends / index creation across every capacity boundary 3, 6, 12, 24, 48, ... with and without a second handle"""
     cases = []
@@ -1081,6 +1169,7 @@ def gen(rng, tier):
     cases = []
     cases += lit_cases(rng, tier)
     cases += numeric_eq_cases(rng)
+    cases += float_int_cases(rng, tier)
     cases += growth_cases(rng, tier)
     cases += deep_cases(rng)
     nh = 2500 if tier == "quick" else 40000
@@ -1157,7 +1246,7 @@ LEVEL_TEXT = (
     "Var assignment, auto-creating operator[], <<, resize, removeAt, remove, clear, extend, clone, ==, toString): "
     "(1) accessors_*: a Var built from int/unsigned/Long/double/float/bool/string reports that type and value (unsigned >= 2^31 -> "
     "NUMBER, inline representation exactly below 8 bytes, same bytes and length on both sides of the boundary); "
-    "(2) eq_iff_content (+ eq_refl/eq_symm/eq_trans, numbers_compare_numerically): v == w is true exactly when both denote the same "
+    "(2) eq_iff_content (+ eq_refl/eq_symm/eq_trans, numbers_compare_numerically, eq_float_int_exact): v == w is true exactly when both denote the same "
     "abstract tree (numbers by value across INT/NUMBER/FLOAT, strings by bytes across STRING/SSTRING, containers element-wise, "
     "NONE = NONE), hence an equivalence; "
     "(3) history_safe (full) / history_never_touches_freed: for EVERY history of guarded statements from the initial state — typed and "
